@@ -27,6 +27,13 @@ class InjectSpecRule(RewriteRule):
 
             return RewriteResult(has_done_something=True)
         elif (
+            isinstance(node, spec.GetSpecialGrid)
+            and (grid_id := node.grid_id) in self.arch_spec.layout.special_grid
+        ):
+            node.replace_by(Constant(self.arch_spec.layout.special_grid[grid_id]))
+
+            return RewriteResult(has_done_something=True)
+        elif (
             isinstance(node, spec.GetIntConstant)
             and node.constant_id in self.arch_spec.int_constants
         ):
